@@ -6,7 +6,7 @@ from pyvc import spec as SP
 from pyvc.sym import Sym
 
 META = {
-    "explanation": "balance_stoichiometry delegates the mathematics to sympy (linsolve, nsimplify, gcd, Wild.match) and CBC; what is proved is everything chempy itself is responsible for: (head slice, up to the linsolve call) the signed composition matrix A[i][j] = composition_j[key_i] * (-1 for reactants), one row per composition key incl. charge (the order of the rows is free) and the reactants-then-products column order, and the presence pre-check raising ValueError exactly when a key occurs on one side only without mixed signs there; (tail slice, the statements after the last assignment to `sol`, for ANY vector sol and matrix A that the external solvers may have produced) every normal return has all coefficients non-zero, none negative, and - in the two numeric modes - numeric and satisfying A*sol == 0, with exactly the given species as keys (a set per side) and value sol[index(key)] (possibly int() of it, in the 'smallest integers' mode only); the duplicate-species dispatch. Positivity, coprimality, minimality and refusal of infeasible placements depend on sympy/CBC output: they are stated generically (no expected coefficients) on data only - 30 small signed matrices incl. charge-type rows and fractional entries against brute force, exact rank and an LP (numeric_clauses_on_small_matrices) - and decided otherwise by the bounded exhaustive stand-in.",
+    "explanation": "balance_stoichiometry delegates the mathematics to sympy (linsolve, nsimplify, gcd, Wild.match) and CBC; what is proved is everything chempy itself is responsible for: (head slice, up to the linsolve call) the signed composition matrix A[i][j] = composition_j[key_i] * (-1 for reactants), one row per composition key incl. charge (the order of the rows is free) and the reactants-then-products column order, and the presence pre-check raising ValueError exactly when a key occurs on one side only without mixed signs there; (tail slice, the statements after the last assignment to `sol`, for ANY vector sol and matrix A that the external solvers may have produced) every normal return has all coefficients non-zero, none negative, and - in the two numeric modes - numeric and satisfying A*sol == 0, with exactly the given species as keys (a set per side) and value sol[index(key)] (possibly int() of it, in the 'smallest integers' mode only); the duplicate-species dispatch. Positivity, coprimality, minimality and refusal of infeasible placements depend on sympy/CBC output: they are stated generically (no expected coefficients) on data only - 30 small signed matrices incl. charge-type rows and fractional entries against brute force, exact rank and an LP (numeric_clauses_on_small_matrices; a parametric answer must admit positive coefficients, and none is due when no positive solution exists), hand-derived under-determined placements without a positive solution in the default mode (fixed_reactions, coal_gas*/sulfur), and the coefficient sum proper on placements whose best and second-best sums differ by 1 or 2 at coefficients of several hundred (minimal_sum_with_large_coefficients) - and decided otherwise by the bounded exhaustive stand-in.",
     "trusted_base": ["sympy Matrix * Matrix is the matrix product; x == 0, 0 in M, free_symbols, is_negative, int(x) mean what they say (5.4)", "nsimplify(x, rational=True) preserves the value of x", "the slices are cut mechanically from the real AST on every run (what is dropped is stated in the evidence)"],
     "not_decided": ["minimal coefficient sum, joint coprimality, unique-ray minimal solution, symbolic (free parameter) mode identities: outputs of sympy/CBC -> bounded stand-in only"],
     "assumptions": ["species layouts fixed per harness; composition values and the solver's output vector are symbolic",
@@ -279,6 +279,28 @@ def _(v):
             v.prove("duplicates_answer_is_valid." + label, not d, "%r: %s" % (res, "; ".join(d)))
 
 
+def _admits_positive_coefficients(coeffs):
+    """do values of the free parameters exist that make every coefficient of the (affine) family positive?  LP: maximise eps subject to
+    coefficient_i(x) >= eps, x_j >= eps, eps <= 1 (the parameters range over the positive reals, see META 'reading'); without parameters: all > 0"""
+    import sympy
+    from scipy.optimize import linprog
+    syms = sorted({x for c in coeffs for x in sympy.sympify(c).free_symbols}, key=str)
+    if not syms:
+        return all(c > 0 for c in coeffs)
+    rows, rhs = [], []
+    for c in coeffs:                         # c(x) = a + b.x >= eps   <=>   -b.x + eps <= a
+        c = sympy.expand(sympy.sympify(c))
+        b = [float(c.coeff(x)) for x in syms]
+        a = float(c.subs({x: 0 for x in syms}))
+        rows.append([-bi for bi in b] + [1.0])
+        rhs.append(a)
+    for j in range(len(syms)):               # x_j >= eps
+        rows.append([-1.0 if i == j else 0.0 for i in range(len(syms))] + [1.0])
+        rhs.append(0.0)
+    res = linprog([0.0] * len(syms) + [-1.0], A_ub=rows, b_ub=rhs, bounds=[(None, None)] * len(syms) + [(None, 1.0)])
+    return bool(res.status == 0 and -res.fun > 1e-9)
+
+
 @harness("C02", "fixed_reactions", functions=[CH + ":balance_stoichiometry", CH + ":_solve_balancing_ilp_pulp"], kind="data")
 def _(v):
     from chempy.chemistry import balance_stoichiometry as bs
@@ -423,24 +445,7 @@ def _(v):
     v.prove("no_state_between_calls", seq == [({"ox": 1}, {"atom": 3}), ({"ox": 1}, {"atom": 2}), ({"ox": 1}, {"atom": 3})], detail=repr(seq))
     # default (symbolic) mode: an answer with free parameters must admit positive parameter values that make every coefficient positive;
     # when no assignment of positive coefficients balances the species as placed, a ValueError is due, not an answer
-    def feasible(coeffs):
-        import sympy
-        from scipy.optimize import linprog
-        syms = sorted({x for c in coeffs for x in sympy.sympify(c).free_symbols}, key=str)
-        if not syms:
-            return all(c > 0 for c in coeffs)
-        rows, rhs = [], []
-        for c in coeffs:                         # c(x) = a + b.x >= eps   <=>   -b.x + eps <= a
-            c = sympy.expand(sympy.sympify(c))
-            b = [float(c.coeff(x)) for x in syms]
-            a = float(c.subs({x: 0 for x in syms}))
-            rows.append([-bi for bi in b] + [1.0])
-            rhs.append(a)
-        for j in range(len(syms)):               # x_j >= eps
-            rows.append([-1.0 if i == j else 0.0 for i in range(len(syms))] + [1.0])
-            rhs.append(0.0)
-        res = linprog([0.0] * len(syms) + [-1.0], A_ub=rows, b_ub=rhs, bounds=[(None, None)] * len(syms) + [(None, 1.0)])
-        return bool(res.status == 0 and -res.fun > 1e-9)
+    feasible = _admits_positive_coefficients
     # Reading: the parameters range over the positive REALS ('some assignment of positive coefficients'); chempy declares its symbols
     # integer=True, positive=True, and e.g. H2O -> H+ + OH- + H3O+ comes back with H+: 1 - x1, positive for no positive integer x1 but for
     # x1 = 1/2 - under an integer reading that answer would be a finding (reported to the maintainer, not stated here).
@@ -449,7 +454,15 @@ def _(v):
     # from two parameters on) 3 C + 2 O2 + 3 H2 -> CO + CO2 + H2O + CH4; water_ions (2-dimensional, a charge row) 3 H2O -> H+ + 2 OH- + H3O+.
     # A refusal (ValueError) of a placement with several rays is allowed in this mode: the statement promises an answer only for a single ray
     # and for the smallest-integers mode (refusals of feasible placements by the parametric mode are documented behaviour, DESIGN section 9).
+    # 'when no assignment of positive coefficients balances the species as placed, a ValueError is raised rather than an answer', for
+    # under-determined placements (parameters survive) in which one coefficient is MINUS a sum of others, whatever the parameters - by hand:
+    #   coal_gas           a C + b CO + c H2 -> d CO2 + e H2O:   C: a + b = d,  O: b = 2 d + e            =>  a = -(d + e)
+    #   coal_gas_reversed  a CO2 + b H2O -> c C + d CO + e H2:   C: a = c + d,  O: 2 a + b = d            =>  c = -(a + b)
+    #   coal_gas_ammonia   the first one with N2 among the reactants and NH3 among the products (three parameters): still a = -(d + e)
+    #   sulfur             a SO3 + b H2O -> c S + d SO2 + e H2:  S: a = c + d,  O: 3 a + b = 2 d          =>  c = -(a + b) / 2
     for label, (rs_, ps_), has_positive_solution in (("carbonate", (["H+", "H2O", "HCO3-"], ["CO2", "OH-"]), False), ("formic", (["CH3OH", "H2CO3", "HCOOH"], ["C2H4", "H2O"]), False),
+                                                     ("coal_gas", (["C", "CO", "H2"], ["CO2", "H2O"]), False), ("coal_gas_reversed", (["CO2", "H2O"], ["C", "CO", "H2"]), False),
+                                                     ("coal_gas_ammonia", (["C", "CO", "H2", "N2"], ["CO2", "H2O", "NH3"]), False), ("sulfur", (["SO3", "H2O"], ["S", "SO2", "H2"]), False),
                                                      ("two_oxides", (["C", "O2"], ["CO", "CO2"]), True), ("iron_oxides", (["Fe", "O2"], ["FeO", "Fe2O3"]), True),
                                                      ("three_parameters", (["C", "O2", "H2"], ["CO", "CO2", "H2O", "CH4"]), True), ("water_ions", (["H2O"], ["H+", "OH-", "H3O+"]), True)):
         try:
@@ -568,6 +581,74 @@ def _(v):
         v.prove("minimal_sum_with_a_non_terminating_fraction." + label, ok, detail=det)
 
 
+@harness("C02", "minimal_sum_with_large_coefficients", functions=[CH + ":balance_stoichiometry", CH + ":_solve_balancing_ilp_pulp"], kind="data")
+def _(v):
+    """'the smallest-integers mode returns a positive solution of minimal coefficient sum' - the coefficient sum itself, not a weighted, perturbed or
+    tie-broken variant of it: placements with two positive solutions whose sums differ by 1 or 2 while single coefficients differ by several
+    hundred.  Two building blocks of nearly equal size (u and w units of one element, gcd(u, w) = 1) and `ncaps` capping species (one element
+    each) make up one chain with N = u a0 + w c0 units and one cap of each kind, in both directions (chain built / chain split) and with the
+    blocks given in either order.  By hand: a S + c L + sum b_i cap_i <-> p chain means u a + w c = N p, b_i = p.  p = 1: (a, c) =
+    (a0 + w t, c0 - u t), t >= 0 (a0 <= w), coefficient sum a0 + c0 + ncaps + 1 + (w - u) t, least for t = 0; p >= 2: a + c >= N p / w >=
+    2 (u a0 + w c0) / w > 2 c0 > a0 + c0 (c0 > a0).  So the minimal coefficient sum is a0 + c0 + ncaps + 1, and c0 > u makes the runner-up
+    (t = 1, sum larger by w - u) a positive solution as well.  The sum is cross-checked by enumeration (p <= w S0 / N because N p <= w (a + c)
+    <= w S0 for every solution of sum <= S0).  Coefficients stay below 2000: CBC answers at once."""
+    import sympy
+    from chempy.chemistry import balance_stoichiometry, Substance, _solve_balancing_ilp_pulp
+    bad = {"oracle": [], "helper": [], "balance": []}
+    ncases = 0
+    #        u     w     a0  c0    ncaps
+    for u, w, a0, c0, ncaps in ((700, 701, 1, 900, 1), (1500, 1501, 2, 1600, 2), (999, 1001, 1, 1200, 3), (350, 351, 3, 800, 0), (40, 41, 5, 90, 1)):
+        N = u * a0 + w * c0
+        want = a0 + c0 + ncaps + 1
+        best = None
+        for p_ in range(1, w * want // N + 1):
+            for c_ in range(1, N * p_ // w + 1):
+                a_, rem = divmod(N * p_ - w * c_, u)
+                if rem == 0 and a_ >= 1 and (best is None or a_ + c_ + p_ * (1 + ncaps) < best):
+                    best = a_ + c_ + p_ * (1 + ncaps)
+        if best != want or not (a0 <= w and a0 < c0 and c0 > u):
+            bad["oracle"].append(((u, w, a0, c0, ncaps), want, best))
+            continue
+        caps = ["cap%d" % i for i in range(ncaps)]
+        comp = {"S": {1: u}, "L": {1: w}, "chain": {1: N}}
+        for i, k in enumerate(caps):
+            comp[k] = {10 + i: 1}
+            comp["chain"][10 + i] = 1
+        subs = {k: Substance(k, composition=dict(c)) for k, c in comp.items()}
+        for blocks in (["S"] + caps + ["L"], ["L"] + caps + ["S"], caps + ["S", "L"]):
+            for reac, prod in ((blocks, ["chain"]), (["chain"], blocks)):
+                ncases += 1
+                tag = ((u, w, a0, c0, ncaps), reac, prod)
+                species = reac + prod
+                rows = [[comp[k].get(el, 0) * (-1 if j < len(reac) else 1) for j, k in enumerate(species)] for el in [1] + [10 + i for i in range(ncaps)]]
+                is_solution = lambda x: all(sum(a * b for a, b in zip(row, x)) == 0 for row in rows)
+                # the helper on the signed composition matrix (what balance_stoichiometry hands it, see head.*)
+                try:
+                    got = _solve_balancing_ilp_pulp(sympy.Matrix(rows))
+                    x = [int(round(g)) for g in got]
+                    if not (all(abs(g - xi) < 1e-9 and xi >= 1 for g, xi in zip(got, x)) and is_solution(x)):
+                        bad["helper"].append(tag + ("not a positive integer solution: %r" % (got,),))
+                    elif sum(x) != want:
+                        bad["helper"].append(tag + ("%s has the coefficient sum %d, the minimum is %d" % (dict(zip(species, x)), sum(x), want),))
+                except Exception as e:
+                    bad["helper"].append(tag + (repr(e)[:100],))
+                try:
+                    res = balance_stoichiometry(list(reac), list(prod), substances=subs, underdetermined=None)
+                    d = _numeric_answer_defects(res, reac, prod, comp)
+                    if d:
+                        bad["balance"].append(tag + ("%r: %s" % (res, "; ".join(d)),))
+                    else:
+                        r, p = res
+                        tot = sum(int(c) for c in list(r.values()) + list(p.values()))
+                        if tot != want:
+                            bad["balance"].append(tag + ("%s -> %s has the coefficient sum %d, the minimum is %d" % (dict(r), dict(p), tot, want),))
+                except Exception as e:
+                    bad["balance"].append(tag + (repr(e)[:100],))
+    v.prove("hand_derived_minimum_confirmed_by_enumeration", not bad["oracle"] and ncases == 30, detail="%d cases, %r" % (ncases, bad["oracle"][:3]))
+    v.prove("helper_returns_a_positive_solution_of_minimal_coefficient_sum", not bad["helper"], detail=repr(bad["helper"][:3]))
+    v.prove("smallest_integers_mode_returns_a_valid_answer_of_minimal_coefficient_sum", not bad["balance"], detail=repr(bad["balance"][:3]))
+
+
 def _rank(rows):
     """rank by exact elimination over fractions"""
     from fractions import Fraction as Fr
@@ -605,7 +686,9 @@ def _(v):
         with free symbols (default mode): A x = 0 identically in them;
       * null space of dimension 1 with a positive vector ('a single ray'): exactly the brute-force minimal solution, in all modes;
       * smallest-integers mode, a positive solution exists: an answer, of the brute-force minimal coefficient sum;
-      * no positive solution: ValueError in the two numeric modes, and in the default mode when the null space has dimension <= 1;
+      * no positive solution: ValueError in all three modes (in the default mode also when parameters survive: a family that is balanced identically
+        has no member with positive coefficients then; the two F-C02c reactions of fixed_reactions are the known exceptions, none of these matrices is);
+        a family that is returned admits values of its parameters that make every coefficient positive (LP);
       * mode False / default mode on several rays: a ValueError or a valid answer; any other exception is a failure.
     Scope: every species has at least one composition key (a matrix with a zero column is left out: species without any composition are a
     recorded observation of the first review, not this clause)."""
@@ -624,9 +707,12 @@ def _(v):
         ([[-Fr(1, 3), -1, 1], [-1, 0, Fr(1, 2)]], 2),                # x0 = x2 / 2, x0 / 3 + x1 = x2: x2 = 2 x0, x1 = 5 x0 / 3: 3, 5 -> 6
         ([[-1, 2, 1], [1, 1, -2]], 1),                               # mixed signs on both sides: -x0 + 2 x1 + x2 = 0, x0 + x1 - 2 x2 = 0; adding them x2 = 3 x1, then x0 = 5 x1: 5 -> 1, 3
         ([[-1, 1, 1], [-1, 1, -1]], 1),                              # the difference of the rows forces x2 = 0: no positive solution although every key is on both sides (passes the pre-check)
+        ([[-1, -1, 0, 1, 0], [0, -1, 0, 2, 1], [0, 0, -2, 0, 2]], 3),   # C + CO + H2 -> CO2 + H2O (rows C, O, H): x0 = x3 - x1 = -(x3 + x4), two dimensions, no positive solution, passes the pre-check
+        ([[-1, 0, 1, 1, 0], [-2, -1, 0, 1, 0], [0, -2, 0, 0, 2]], 2),   # the same species with the sides exchanged: x2 = x0 - x3 = -(x0 + x1)
+        ([[-1, -1, 1, 0], [-1, -2, 0, 1], [-2, -3, 1, 1]], 2),          # third row = sum of the first two (rank 2, two dimensions): x2 = x0 + x1, x3 = x0 + 2 x1, e.g. 1, 1 -> 2, 3 (sum 7)
     ]
-    cases, seen = [], {"single_ray": 0, "several_rays": 0, "no_positive_solution": 0, "answers": 0, "symbolic_answers": 0}
-    bad = {"keys": [], "numeric": [], "identically": [], "single_ray": [], "minimal_sum": [], "refusal": [], "exception": [], "oracle": []}
+    cases, seen = [], {"single_ray": 0, "several_rays": 0, "no_positive_solution": 0, "answers": 0, "symbolic_answers": 0, "no_positive_solution_with_parameters": 0}
+    bad = {"keys": [], "numeric": [], "identically": [], "single_ray": [], "minimal_sum": [], "refusal": [], "exception": [], "oracle": [], "positive_family": []}
     for rows, nreac in _small_matrices() + extra:
         n = len(rows[0])
         if any(all(row[j] == 0 for row in rows) for j in range(n)):
@@ -647,6 +733,7 @@ def _(v):
         subs = OrderedDict((k, Substance(k, composition={i + 1: rows[i][j] * (-1 if j < nreac else 1) for i in range(len(rows)) if rows[i][j] != 0})) for j, k in enumerate(keys))
         cases.append(rows)
         seen["single_ray" if (positive and nullity == 1) else "several_rays" if positive else "no_positive_solution"] += 1
+        seen["no_positive_solution_with_parameters"] += (not positive and nullity >= 2)
         for mode in (None, False, True):
             tag = (rows, nreac, mode)
             try:
@@ -672,8 +759,10 @@ def _(v):
                     resid = [sympy.expand(sum(sympy.Rational(a.numerator, a.denominator) * sympy.sympify(c) for a, c in zip(row, x))) for row in exact]
                     if any(t != 0 for t in resid):
                         bad["identically"].append(tag + (str(x), str(resid)))
-                    if not positive:     # (dimension >= 2 here: the parametric mode may hand back a parametrisation of an infeasible placement, F-C02c; not restated)
-                        pass
+                    elif not positive:   # balanced identically and no positive solution: no value of the parameters makes every coefficient positive
+                        bad["refusal"].append(tag + ("answered with the family %s although no positive solution exists" % (x,),))
+                    elif not _admits_positive_coefficients(x):
+                        bad["positive_family"].append(tag + (str(x),))
                     continue
                 seen["answers"] += 1
                 d = _numeric_answer_defects((r, p), reac, prod, {k: {i: a for i, a in subs[k].composition.items()} for k in keys})
@@ -695,6 +784,7 @@ def _(v):
     v.prove("symbolic_answers_are_balanced_identically", not bad["identically"], detail=repr(bad["identically"][:3]))
     v.prove("single_ray_gives_the_minimal_solution_in_all_modes", not bad["single_ray"], detail=repr(bad["single_ray"][:3]))
     v.prove("smallest_integers_mode_has_the_minimal_coefficient_sum", not bad["minimal_sum"], detail=repr(bad["minimal_sum"][:3]))
+    v.prove("symbolic_answers_admit_positive_coefficients", not bad["positive_family"], detail=repr(bad["positive_family"][:3]))
     v.prove("answers_exactly_when_due_else_ValueError", not bad["refusal"], detail=repr(bad["refusal"][:3]))
     v.prove("no_exception_other_than_ValueError", not bad["exception"], detail=repr(bad["exception"][:3]))
-    v.prove("all_kinds_exercised", len(cases) >= 25 and seen["single_ray"] >= 8 and seen["several_rays"] >= 6 and seen["no_positive_solution"] >= 8 and seen["answers"] >= 3 * seen["single_ray"] + seen["several_rays"], detail="%d cases, %r" % (len(cases), seen))
+    v.prove("all_kinds_exercised", len(cases) >= 25 and seen["single_ray"] >= 8 and seen["several_rays"] >= 6 and seen["no_positive_solution"] >= 8 and seen["answers"] >= 3 * seen["single_ray"] + seen["several_rays"] and seen["no_positive_solution_with_parameters"] >= 5 and seen["symbolic_answers"] >= 5, detail="%d cases, %r" % (len(cases), seen))
